@@ -2,6 +2,8 @@
 //   exec  <script.ndjson> <trace.ndjson>     run every script line, one event per line
 //   drive <kind> <seed> <count> <script.ndjson>   write a seeded random script (see drive.rs)
 //   deep  <op> <shape> <depth>               one deep-nesting probe (run as a child process)
+mod deep;
+mod drive;
 mod ops;
 mod tree;
 
@@ -36,6 +38,20 @@ fn main() {
             }
             out.flush().unwrap();
             eprintln!("executed {n} script lines");
+        }
+        Some("drive") => {
+            let seed: u64 = args[3].parse().expect("seed");
+            let count: usize = args[4].parse().expect("count");
+            let lines = drive::script(&args[2], seed, count);
+            let mut out = BufWriter::new(std::fs::File::create(&args[5]).expect("create script"));
+            for l in lines {
+                serde_json::to_writer(&mut out, &l).unwrap();
+                out.write_all(b"\n").unwrap();
+            }
+            out.flush().unwrap();
+        }
+        Some("deep") => {
+            deep::run_child(&args[2], &args[3], args[4].parse().expect("depth"));
         }
         _ => {
             eprintln!("usage: exec <script> <trace>");
